@@ -153,6 +153,9 @@ MMixed == { MG("Measure", 1, d, o, <<>>, <<>>) : d \in 0..1, o \in 0..1 } \cup {
           \cup { MG("NOT", 0, 0, 0, <<>>, <<>>), MG("Copy", 0, 0, 0, <<>>, <<>>), MG("Match", 0, 0, 0, <<>>, <<>>) }
           \cup { MG("MSwap", 0, 0, 0, <<a>>, <<b>>) : a \in {"q", "b"}, b \in {"q", "b"} }
           \cup { MSC("scalar", 1, 1, 2), MSC("mscalar", 1, 0, 2) }
+          \* the same amplitude scalars written as square roots (gates.Sqrt): sub = "sqrt" tells the adapter to build
+          \* Sqrt(amplitude^2); i = sqrt(-1) and 1 + i = sqrt(2i) have negative / imaginary radicands
+          \cup { [MSC("scalar", 0, 1, 0) EXCEPT !.sub = "sqrt"], [MSC("scalar", 1, 1, 0) EXCEPT !.sub = "sqrt"] }
 MMenu == MPure \cup MMixed
 MTypes == { <<>>, <<"q">>, <<"b">>, <<"q", "b">>, <<"b", "q">>, <<"q", "q">>, <<"b", "b">> }
 MInit == c = [dom |-> 0, layers |-> <<>>] /\ mc \in { [ty |-> t, layers |-> <<>>] : t \in { t \in MTypes : Weight(t) <= MaxWeight } }
